@@ -2,6 +2,7 @@ SPECIFICATION Spec
 CONSTANTS
   MaxLen = 5
   MaxDepth = 4
+  TurnInside = TRUE
   EmitHist = TRUE
 INVARIANT DepthConsistent
 INVARIANT Emit
